@@ -1,8 +1,8 @@
-use c18::tree::{Carry, Case, Form, Header, Item, Node, PushVia};
+use c18::tree::{Carry, Case, Form, Header, Item, Node, PushVia, RunHow};
 use vcore::proptest::prelude::*;
 use vcore::Level;
 
-const RULE: &str = "a case is a program as data: a span tree (<=20 span nodes, depth <=5; forms: attribute on sync/async fn, new_span! with Frame::call / enter / in_future, guard: parameter completed with complete() or complete_with(custom completion), Result-returning ok_lvl / err_lvl / err: fns sync and async leaving by Ok, return Err or an early ?, and four own-frame hand-off forms where the frame returned by new_span! — for sampled and for unsampled (rejected) spans — is moved to a fresh thread and entered there by call / in_fn / enter, or polled through in_future alternately on fresh threads and the awaiting thread) with emit! events, Traceparent::current()/SpanCtxt::current checks and yields, plus pushed incoming headers (unparsable -> documented fallback, valid sampled/unsampled of another trace, same trace id as the active one, all-zero, half-zero; through Traceparent::push, push(traceparent, tracestate) or header text), next-service hops (format current header, parse and push it on a fresh thread, run child spans there), same-service thread hops (carrying nothing / Frame::current(rt.ctxt()) / Traceparent::current().push() / both; by call or in_future) planned panics (quiet resume_unwind) that unwind through any of these scopes up to a catch_unwind (explicit Catch item, in async code around every poll; or the top of the hop / service / hand-off thread) after which the same thread is used on; and joins of async tasks with a generated poll schedule (optionally each task wrapped in Frame::current(rt.ctxt()).in_future, and then optionally with polls migrating to fresh threads); the sampler is a generated decision table indexed by call number that records its argument, or no sampler at all is installed (TraceparentFilter::new(), the plain setup(): every locally started trace is sampled and unsampled traces only arrive through incoming headers); the filter is TraceparentFilter optionally AND in_sampled_trace_filter(b). Run on a private runtime on a fresh thread and judged against a model of the active traceparent. Non-trivial = at least two root spans whose sampler decisions differ, or a pushed incoming header, or a (thread or service) hop.";
+const RULE: &str = "a case is a program as data: a span tree (<=20 span nodes, depth <=5; forms: attribute on sync/async fn, new_span! with Frame::call / enter / in_future, guard: parameter completed with complete() or complete_with(custom completion), Result-returning ok_lvl / err_lvl / err: fns sync and async leaving by Ok, return Err or an early ?, and four own-frame hand-off forms where the frame returned by new_span! — for sampled and for unsampled (rejected) spans — is moved to a fresh thread and entered there by call / in_fn / enter, or polled through in_future alternately on fresh threads and the awaiting thread) with emit! events, Traceparent::current()/SpanCtxt::current checks and yields, plus pushed incoming headers (unparsable -> documented fallback, valid sampled/unsampled of another trace, same trace id as the active one, all-zero, half-zero; through Traceparent::push, push(traceparent, tracestate) or header text), next-service hops (format current header, parse and push it on a fresh thread, run child spans there), same-service thread hops (carrying nothing / Frame::current(rt.ctxt()) / Traceparent::current().push() / both; by call or in_future) non-span frames (Frame::current / Frame::push with a plain property) captured at one point — typically at top level before any trace — and entered later somewhere else (inside spans, header frames, other threads) by call / enter guard / in_future / on a fresh thread; planned panics (quiet resume_unwind) that unwind through any of these scopes up to a catch_unwind (explicit Catch item, in async code around every poll; or the top of the hop / service / hand-off thread) after which the same thread is used on; and joins of async tasks with a generated poll schedule (optionally each task wrapped in Frame::current(rt.ctxt()).in_future, and then optionally with polls migrating to fresh threads); the sampler is a generated decision table indexed by call number that records its argument, or no sampler at all is installed (TraceparentFilter::new(), the plain setup(): every locally started trace is sampled and unsampled traces only arrive through incoming headers); the filter is TraceparentFilter optionally AND in_sampled_trace_filter(b). Run on a private runtime on a fresh thread and judged against a model of the active traceparent. Non-trivial = at least two root spans whose sampler decisions differ, or a pushed incoming header, or a (thread or service) hop.";
 
 const ASSUMPTIONS: [&str; 8] = [
     "ids of sampled spans are read from their own span events; the order of sampler calls is read from the log positions of span starts (never predicted); ids inside unsampled traces are learned from the first observation inside the span and must then stay stable and be restored",
@@ -74,6 +74,8 @@ fn body(depth_left: u32) -> BoxedStrategy<Vec<Item>> {
         9 => (form(), inner.clone()).prop_map(|(form, items)| Item::Span(Node { form, items })),
         3 => (header(), prop_oneof![Just(PushVia::Method), Just(PushVia::Function), Just(PushVia::Text)], inner.clone()).prop_map(|(header, via, items)| Item::Push { header, via, items }),
         3 => inner.clone().prop_map(|items| Item::Catch { items }),
+        1 => any::<bool>().prop_map(|props| Item::CaptureFrame { props }),
+        4 => (prop_oneof![3 => Just(RunHow::Call), 3 => Just(RunHow::EnterGuard), 3 => Just(RunHow::InFuture), 1 => Just(RunHow::OtherThread)], inner.clone()).prop_map(|(how, items)| Item::RunFrame { how, items }),
         1 => inner.clone().prop_map(|items| Item::Service { items }),
         1 => (prop_oneof![1 => Just(Carry::Nothing), 2 => Just(Carry::FrameCurrent), 2 => Just(Carry::TraceparentPush), 1 => Just(Carry::Both)], any::<bool>(), inner.clone())
             .prop_map(|(carry, fut, items)| Item::Hop { carry, fut, items }),
@@ -99,6 +101,7 @@ fn limit(items: &mut Vec<Item>, budget: &mut usize, depth: usize, caught: bool) 
             }
             Item::Panic if !caught => *it = Item::Event,
             Item::Catch { items } => limit(items, budget, depth, true),
+            Item::RunFrame { how, items } => limit(items, budget, depth, caught || *how == RunHow::OtherThread),
             Item::Push { items, .. } => limit(items, budget, depth, caught),
             Item::Service { items } | Item::Hop { items, .. } => limit(items, budget, depth, true),
             Item::Join { tasks, .. } => {
@@ -149,9 +152,13 @@ fn case() -> impl Strategy<Value = Case> {
             1 => prop_oneof![Just((true, Some(true))), Just((true, Some(false)))],
         ],
         any::<u64>(),
-        (panic_prologue(), body(7)).prop_map(|(prologue, mut items)| {
+        (prop::collection::vec(any::<bool>(), 0..4), panic_prologue(), body(7)).prop_map(|(captures, prologue, mut items)| {
             if let Some(p) = prologue {
                 items.insert(0, p);
+            }
+            // what a dispatcher captures when jobs are submitted: frames made before any trace exists
+            for props in captures {
+                items.insert(0, Item::CaptureFrame { props });
             }
             items
         }),
@@ -176,6 +183,12 @@ fn main() {
         s.require("form:result-span-in-unsampled-trace", 200);
         s.require("form:complete_with-in-unsampled-trace", 200);
         s.require("form:result-span-continuing-unsampled-header", 100);
+        s.require("foreign-frame:captured-outside-trace/entered-inside-sampled-span", 200);
+        s.require("foreign-frame:captured-outside-trace/entered-inside-unsampled-span", 200);
+        s.require("foreign-frame:captured-outside-trace/entered-under-incoming-header", 200);
+        s.require("foreign-frame:captured-outside-trace/entered-by-call", 100);
+        s.require("foreign-frame:captured-outside-trace/entered-by-enter-guard", 100);
+        s.require("foreign-frame:captured-outside-trace/entered-by-in-future", 100);
         s.require("exit:panic-sync-call", 200);
         s.require("exit:panic-incoming-frame", 100);
         s.require("exit:panic-async", 100);
